@@ -57,3 +57,10 @@ Example C18_nonvacuous :
                               sc_argon := Some {| ap_time := 0; ap_memory := 8; ap_threads := 1; ap_length := 32 |} |}] |} in
   (exists l, from_config good = Some l) /\ from_config bad = None.
 Proof. split; [eexists; vm_compute; reflexivity | vm_compute; reflexivity]. Qed.
+
+(* ---- the model's state space is the code's declared state ----
+   (theories/StateInst.v: package-level variables and struct fields listed by tools/facts on every
+   run; the models keep no state between operations other than these components) *)
+From Whawty Require StateInst.
+Theorem C18_agent_state_inventory : StateInst.agent_state_inventory.
+Proof. exact StateInst.agent_state_inventory_holds. Qed.
